@@ -59,4 +59,994 @@ theorem mem_cleanup {c : Cache} {ma cur : Int} {p : Int × Entry}
              decide_eq_false_iff_not, Int.not_lt] at h
   exact h
 
+/-! ### user-file scans -/
+
+theorem htdDigest_next {dlen : Nat} {pwd u : Bytes} {onLen : HtdLine} {v : Bytes}
+    (h : htdDigest dlen pwd onLen u = .next v) : onLen = .next v := by
+  unfold htdDigest at h
+  split at h
+  · exact h
+  · split at h <;> cases h
+
+theorem htdDigest_done {dlen : Nat} {pwd u : Bytes} {w : Bytes} {u' d : Bytes}
+    (h : htdDigest dlen pwd (.next w) u = .done (some (u', d))) : u' = u := by
+  unfold htdDigest at h
+  split at h
+  · cases h
+  · split at h
+    · simp only [HtdLine.done.injEq, Option.some.injEq, Prod.mk.injEq] at h; exact h.1.symm
+    · cases h
+
+theorem htdigestLineUser_next {realm : Bytes} {dlen : Nat} {l uname v : Bytes}
+    (h : htdigestLineUser realm dlen l uname = .next v) : v = uname := by
+  unfold htdigestLineUser at h
+  repeat' split at h
+  all_goals first
+    | (simp only [HtdLine.next.injEq] at h; exact h.symm)
+    | (have := htdDigest_next h; simp only [HtdLine.next.injEq] at this; exact this.symm)
+
+theorem htdigestLineUser_done {realm : Bytes} {dlen : Nat} {l uname u d : Bytes}
+    (h : htdigestLineUser realm dlen l uname = .done (some (u, d))) : u = uname := by
+  unfold htdigestLineUser at h
+  repeat' split at h
+  all_goals first
+    | cases h
+    | exact htdDigest_done h
+
+theorem htdigestLineHash_done {realm : Bytes} {dlen : Nat} {l uname u d : Bytes}
+    (h : htdigestLineHash realm dlen l uname = .done (some (u, d))) :
+    u.length ≤ Extracted.authUserbufSize := by
+  unfold htdigestLineHash at h
+  repeat' split at h
+  all_goals first
+    | cases h
+    | (rename_i hc; have := htdDigest_done h; rw [this]; exact hc.2.2)
+
+theorem htdigestScan_nouserhash_name (realm : Bytes) (dlen : Nat) (ls : List Bytes) (uname u d : Bytes)
+    (h : htdigestScan realm false dlen ls uname = some (u, d)) : u = uname := by
+  induction ls generalizing uname with
+  | nil => simp [htdigestScan] at h
+  | cons l ls ih =>
+    unfold htdigestScan at h
+    simp only [Bool.false_eq_true, ↓reduceIte] at h
+    split at h
+    · rename_i u' hl
+      have := htdigestLineUser_next hl
+      subst this
+      exact ih _ h
+    · rename_i r hl
+      subst h
+      exact htdigestLineUser_done hl
+
+theorem htdigestScan_userhash_len (realm : Bytes) (dlen : Nat) (ls : List Bytes) (uname u d : Bytes)
+    (h : htdigestScan realm true dlen ls uname = some (u, d)) : u.length ≤ Extracted.authUserbufSize := by
+  induction ls generalizing uname with
+  | nil => simp [htdigestScan] at h
+  | cons l ls ih =>
+    unfold htdigestScan at h
+    simp only [↓reduceIte] at h
+    split at h
+    · exact ih _ h
+    · rename_i r hl
+      subst h
+      exact htdigestLineHash_done hl
+
+theorem digestHitEntry_some {c : Cache} {key : Int} {ridx : Nat} {ai : AI} {user : Bytes} {e : Entry}
+    (h : digestHitEntry c key ridx ai user = some e) : (key, e) ∈ c ∧ digestHit ridx ai user e = true := by
+  unfold digestHitEntry at h
+  split at h
+  · rename_i e' hl
+    split at h
+    · rename_i hcond
+      simp only [Option.some.injEq] at h
+      subst h
+      exact ⟨lookup_mem hl, hcond⟩
+    · cases h
+  · cases h
+
+theorem backendLookup_plain_uh {P : Prims} {cfg : Cfg} (hb : cfg.backend = .plain) (realm : Bytes) (uh uh' : Bool)
+    (dlen : Nat) (name : Bytes) :
+    backendLookup P cfg realm uh dlen name = backendLookup P cfg realm uh' dlen name := by
+  unfold backendLookup; rw [hb]
+
+theorem backendLookup_plain_name {P : Prims} {cfg : Cfg} (hb : cfg.backend = .plain) {realm : Bytes} {uh : Bool}
+    {dlen : Nat} {name u d : Bytes} (h : backendLookup P cfg realm uh dlen name = some (u, d)) : u = name := by
+  unfold backendLookup at h; rw [hb] at h
+  simp only at h
+  split at h
+  · cases h
+  · simp only [Option.some.injEq, Prod.mk.injEq] at h; exact h.1.symm
+
+theorem backendLookup_nouserhash_name {P : Prims} {cfg : Cfg} {realm : Bytes}
+    {dlen : Nat} {name u d : Bytes} (h : backendLookup P cfg realm false dlen name = some (u, d)) : u = name := by
+  cases hb : cfg.backend with
+  | plain => exact backendLookup_plain_name hb h
+  | htdigest =>
+    unfold backendLookup at h; rw [hb] at h
+    exact htdigestScan_nouserhash_name _ _ _ _ _ _ h
+  | none => unfold backendLookup at h; rw [hb] at h; cases h
+  | htpasswd => unfold backendLookup at h; rw [hb] at h; cases h
+
+theorem backendLookup_userhash {P : Prims} {cfg : Cfg} {realm : Bytes}
+    {dlen : Nat} {name u d : Bytes} (h : backendLookup P cfg realm true dlen name = some (u, d)) :
+    (cfg.backend = .plain ∧ u = name) ∨ u.length ≤ Extracted.authUserbufSize := by
+  cases hb : cfg.backend with
+  | plain => exact Or.inl ⟨rfl, backendLookup_plain_name hb h⟩
+  | htdigest =>
+    unfold backendLookup at h; rw [hb] at h
+    exact Or.inr (htdigestScan_userhash_len _ _ _ _ _ _ h)
+  | none => unfold backendLookup at h; rw [hb] at h; cases h
+  | htpasswd => unfold backendLookup at h; rw [hb] at h; cases h
+
+theorem lowerUserhash_length (s : Bytes) : (lowerUserhash s).length = s.length := by
+  simp [lowerUserhash]
+
+theorem backendDigest_some {P : Prims} {cfg : Cfg} {ai ai2 : AI} (h : backendDigest P cfg ai = some ai2) :
+    backendLookup P cfg ai.realm ai.userhash ai.dlen ai.username = some (ai2.username, ai2.digest)
+    ∧ ai2 = { ai with username := ai2.username, digest := ai2.digest } := by
+  unfold backendDigest at h
+  split at h
+  · cases h
+  · rename_i u d hl
+    simp only [Option.some.injEq] at h
+    subst h
+    exact ⟨hl, rfl⟩
+
+/-! ### cache invariant: every entry restates a backend record -/
+
+def EntryOk (P : Prims) (cfg : Cfg) (e : Entry) : Prop :=
+  ∃ rule, cfg.rules[e.rule]? = some rule ∧
+    (rule.scheme = .basic → backendBasic P cfg rule e.username e.pw = true) ∧
+    (rule.scheme = .digest → ∃ uh : Bool,
+        (e.kIsUser = !uh ∨ (uh = true ∧ e.kIsUser = true ∧ cfg.backend = .plain)) ∧
+        (e.kIsUser = false → e.username.length ≤ Extracted.authUserbufSize) ∧
+        backendLookup P cfg rule.realm uh e.dlen e.k = some (e.username, e.pw))
+
+def CacheOk (P : Prims) (cfg : Cfg) (c : Cache) : Prop := ∀ p ∈ c, EntryOk P cfg p.2
+
+theorem basicHit_some {c : Cache} {key : Int} {ridx : Nat} {user : Bytes} {e : Entry}
+    (h : basicHit c key ridx user = some e) : (key, e) ∈ c ∧ e.rule = ridx ∧ e.username = user := by
+  unfold basicHit at h
+  split at h
+  · rename_i e' hl
+    split at h
+    · rename_i hcond
+      simp only [Option.some.injEq] at h
+      subst h
+      exact ⟨lookup_mem hl, hcond.1, hcond.2⟩
+    · cases h
+  · cases h
+
+theorem basicAuth_cacheOk {P : Prims} {cfg : Cfg} {ridx : Nat} {rule : Rule} {st : St} {user pw : Bytes}
+    (hc : CacheOk P cfg st.cache) (hr : cfg.rules[ridx]? = some rule) (hs : rule.scheme = .basic) :
+    CacheOk P cfg (basicAuth P cfg ridx rule st user pw).1.cache := by
+  unfold basicAuth
+  split
+  · exact hc
+  · split
+    · exact hc
+    · split
+      · rename_i hb
+        intro p hp
+        rcases mem_insert hp with rfl | hp
+        · refine ⟨rule, hr, ?_, ?_⟩
+          · intro _; exact hb
+          · intro h; rw [hs] at h; cases h
+        · exact hc p hp
+      · exact hc
+
+theorem basicAuth_sound {P : Prims} {cfg : Cfg} {ridx : Nat} {rule : Rule} {st : St} {user pw : Bytes}
+    (hc : CacheOk P cfg st.cache) (hr : cfg.rules[ridx]? = some rule) (hs : rule.scheme = .basic)
+    (h : (basicAuth P cfg ridx rule st user pw).2 = true) :
+    backendBasic P cfg rule user pw = true := by
+  unfold basicAuth at h
+  split at h
+  · exact h
+  · split at h
+    · rename_i e hhit
+      obtain ⟨hm, h1, h2⟩ := basicHit_some hhit
+      obtain ⟨rule', hr', hb, _⟩ := hc _ hm
+      simp only at hr'
+      rw [h1, hr] at hr'
+      simp only [Option.some.injEq] at hr'
+      subst hr'
+      have := hb hs
+      simp only [decide_eq_true_eq] at h
+      rw [h2, h] at this
+      exact this
+    · split at h
+      · rename_i hb; exact hb
+      · cases h
+
+theorem digestGet_cacheOk {P : Prims} {cfg : Cfg} {ridx : Nat} {rule : Rule} {st : St} {ai : AI}
+    (hc : CacheOk P cfg st.cache) (hr : cfg.rules[ridx]? = some rule) (hs : rule.scheme = .digest)
+    (hrealm : ai.realm = rule.realm) :
+    CacheOk P cfg (digestGet P cfg ridx st ai).1.cache := by
+  unfold digestGet
+  split
+  · exact hc
+  · split
+    · exact hc
+    · split
+      · exact hc
+      · rename_i ai2 hb
+        intro p hp
+        rcases mem_insert hp with rfl | hp
+        · obtain ⟨hl, _⟩ := backendDigest_some hb
+          simp only at hl
+          refine ⟨rule, hr, ?_, ?_⟩
+          · intro h; rw [hs] at h; cases h
+          · intro _
+            refine ⟨ai.userhash, ?_, ?_, ?_⟩
+            · simp only [digestEntry]
+              cases ai.userhash <;> cases hb' : cfg.backend <;> simp <;> omega
+            · simp only [digestEntry]
+              intro hk
+              cases huh : ai.userhash with
+              | false => rw [huh] at hk; simp at hk
+              | true =>
+                rw [huh] at hl hk
+                rcases backendLookup_userhash hl with ⟨hpl, hu⟩ | hlen
+                · rw [hu]
+                  simp only [hpl, Bool.not_true, Bool.false_or, decide_true, Bool.and_true,
+                             decide_eq_false_iff_not, Nat.not_lt] at hk
+                  simp only [digestKey, lookupKey, huh, hk, and_self, ↓reduceIte]
+                  rw [lowerUserhash_length]; exact hk
+                · exact hlen
+            · simp only [digestEntry]
+              rw [← hrealm]; exact hl
+        · exact hc p hp
+
+theorem digestGet_transparent {P : Prims} {cfg : Cfg} {ridx : Nat} {rule : Rule} {st : St} {ai : AI}
+    (hc : CacheOk P cfg st.cache) (hr : cfg.rules[ridx]? = some rule) (hs : rule.scheme = .digest)
+    (hrealm : ai.realm = rule.realm) :
+    (digestGet P cfg ridx st ai).2 = backendDigest P cfg { ai with username := digestKey ai } := by
+  unfold digestGet
+  split
+  · rfl
+  · split
+    · rename_i e hhit
+      obtain ⟨hm, hcond⟩ := digestHitEntry_some hhit
+      obtain ⟨rule', hr', _, hd⟩ := hc _ hm
+      simp only [digestHit, Bool.and_eq_true, decide_eq_true_eq] at hcond
+      obtain ⟨⟨⟨⟨h1, h2⟩, h3⟩, h4⟩, h5⟩ := hcond
+      simp only at hr'
+      rw [h1, hr] at hr'
+      simp only [Option.some.injEq] at hr'
+      subst hr'
+      obtain ⟨uh, hkind, hlen, hl⟩ := hd hs
+      simp only at hkind hlen hl
+      -- the lookup the backend would do now
+      have hl' : backendLookup P cfg ai.realm ai.userhash ai.dlen (digestKey ai) = some (e.username, e.pw) := by
+        rw [hrealm, ← h3, ← h4]
+        rcases hkind with hk | ⟨_, _, hpl⟩
+        · have h6 : (!uh) = (!ai.userhash) := hk.symm.trans h5
+          have : uh = ai.userhash := by
+            revert h6; generalize ai.userhash = b; cases uh <;> cases b <;> simp
+          rw [← this]; exact hl
+        · rw [backendLookup_plain_uh hpl _ ai.userhash uh]; exact hl
+      simp only [backendDigest, hl']
+      -- the user name reported on a hit is the backend's
+      have hname : (if (!e.kIsUser) = true ∧ e.username.length ≤ Extracted.authUserbufSize
+                    then e.username else ai.username) = e.username := by
+        cases hk : e.kIsUser with
+        | false => simp [hlen hk]
+        | true =>
+          simp only [Bool.not_true, Bool.false_eq_true, false_and, ↓reduceIte]
+          rw [hk] at h5
+          have huh : ai.userhash = false := by
+            revert h5; generalize ai.userhash = b; cases b <;> simp
+          have hkey : digestKey ai = ai.username := by simp [digestKey, lookupKey, huh]
+          rw [huh] at hl'
+          have := backendLookup_nouserhash_name hl'
+          rw [this, hkey]
+      simp only [Bool.not_eq_eq_eq_not, Bool.not_true] at hname ⊢
+      rw [hname]
+    · split
+      · rename_i hb; simp only; rw [hb]
+      · rename_i ai2 hb; simp only; rw [hb]
+
+/-! ### Digest: what the validation steps establish -/
+
+/-- what a successful mod_auth_digest_validate_params() establishes -/
+structure ParamsOk (rule : Rule) (req : Req) (dp : Params) (ai : AI) : Prop where
+  realm : dp.realm = some rule.realm
+  uri : dp.uri = some req.target
+  nonce : dp.nonce.isSome = true
+  airealm : ai.realm = rule.realm
+  algo : algorithmParse (dp.algorithm.getD []) = some (ai.dalgo, ai.dlen)
+  allowed : rule.algorithm &&& ai.dalgo &&& 0xfffffffe ≠ 0
+  name : claimedName dp = some ai.username
+  userhash : ai.userhash = userhashFlag dp
+  resp : (hex2bin (dp.response.getD [])).isSome = true
+  digest : ai.digest = []
+
+theorem validateParams_ok {rule : Rule} {req : Req} {dp : Params} {ai : AI}
+    (h : validateParams rule req dp = .ok ai) : ParamsOk rule req dp ai := by
+  unfold validateParams at h
+  split at h
+  · cases h
+  · rename_i hreq
+    split at h
+    · cases h
+    · rename_i uname hname
+      split at h
+      · cases h
+      · rename_i hrealm
+        split at h
+        · cases h
+        · rename_i dalgo dlen halgo
+          split at h
+          · cases h
+          · rename_i hallowed
+            split at h
+            · cases h
+            · split at h
+              · cases h
+              · rename_i hresp
+                split at h
+                · cases h
+                · split at h
+                  · cases h
+                  · rename_i huri
+                    simp only [Except.ok.injEq] at h
+                    subst h
+                    have hreq' : requiredPresent dp = true := by
+                      cases hq : requiredPresent dp <;> simp [hq] at hreq ⊢
+                    simp only [requiredPresent, Bool.and_eq_true] at hreq'
+                    simp only [ne_eq, Decidable.not_not] at hrealm huri
+                    simp only [not_or, Decidable.not_not] at hresp
+                    obtain ⟨⟨⟨⟨⟨_, hx⟩, hr⟩, hn⟩, hu⟩, _⟩ := hreq'
+                    refine ⟨?_, ?_, hn, hrealm.symm, halgo, hallowed, hname, rfl, ?_, rfl⟩
+                    · cases hdr : dp.realm with
+                      | none => rw [hdr] at hr; cases hr
+                      | some r => rw [hdr] at hrealm; simp at hrealm; rw [hrealm]
+                    · cases hdu : dp.uri with
+                      | none => rw [hdu] at hu; cases hu
+                      | some r => rw [hdu] at huri; simp at huri; rw [huri]
+                    · cases hh : hex2bin (dp.response.getD []) with
+                      | none => rw [hh] at hresp; simp at hresp
+                      | some _ => rfl
+
+theorem validateNonce_ok {P : Prims} {rule : Rule} {epoch : Int} {nonce : Bytes} {dalgo : Nat} {nn : Bool}
+    (h : validateNonce P rule epoch nonce dalgo = .ok nn) : NonceFresh P rule epoch nonce := by
+  simp only [validateNonce] at h
+  split at h
+  · cases h
+  · rename_i hc
+    simp only [not_or, Decidable.not_not, Int.not_lt] at hc
+    obtain ⟨h1, h2, h3, h4⟩ := hc
+    refine ⟨h1, h2, h3, h4, ?_⟩
+    split at h
+    · rename_i hs; intro sec hsec; rw [hs] at hsec; cases hsec
+    · rename_i sec hs
+      split at h
+      · cases h
+      · split at h
+        · cases h
+        · rename_i heq
+          simp only [ne_eq, Decidable.not_not] at heq
+          intro sec' hsec
+          rw [hs] at hsec
+          simp only [Option.some.injEq] at hsec
+          subst hsec
+          exact ⟨_, heq.symm⟩
+
+theorem digestPre_ok {P : Prims} {cfg : Cfg} {rule : Rule} {epoch : Int} {req : Req}
+    {dp : Params} {ai : AI} {nn : Bool} (h : digestPre P cfg rule epoch req = .ok (dp, ai, nn)) :
+    ∃ vb, req.auth = some vb ∧ icasePrefix vb (ofString "Digest ") = true ∧
+      dp = parseAuthorization (vb.drop 7) ∧ ParamsOk rule req dp ai ∧
+      NonceFresh P rule epoch (dp.nonce.getD []) := by
+  simp only [digestPre] at h
+  split at h
+  · cases h
+  · split at h
+    · cases h
+    · rename_i vb hvb
+      split at h
+      · cases h
+      · rename_i hpre
+        split at h
+        · cases h
+        · rename_i ai' hvp
+          split at h
+          · cases h
+          · rename_i nn' hvn
+            simp only [Except.ok.injEq, Prod.mk.injEq] at h
+            obtain ⟨rfl, rfl, rfl⟩ := h
+            refine ⟨vb, hvb, ?_, rfl, validateParams_ok hvp, validateNonce_ok hvn⟩
+            simpa using hpre
+
+theorem digestPost_go {P : Prims} {rule : Rule} {req : Req} {dp : Params} {ai : AI} {nn : Bool}
+    {u : Bytes} {d n : Bool} (h : digestPost P rule req dp ai nn = .go u d n) :
+    responseMatches P req dp ai.dalgo ai.digest = true ∧ matchRules rule.req ai.username = true
+    ∧ u = ai.username ∧ d = true ∧ n = nn := by
+  unfold digestPost at h
+  split at h
+  · cases h
+  · rename_i h1
+    split at h
+    · cases h
+    · rename_i h2
+      simp only [Outcome.go.injEq] at h
+      obtain ⟨rfl, rfl, rfl⟩ := h
+      refine ⟨by simpa using h1, by simpa using h2, rfl, rfl, rfl⟩
+
+theorem checkDigest_go {P : Prims} {cfg : Cfg} {ridx : Nat} {rule : Rule} {st : St} {req : Req}
+    {u : Bytes} {d n : Bool}
+    (hc : CacheOk P cfg st.cache) (hr : cfg.rules[ridx]? = some rule) (hs : rule.scheme = .digest)
+    (h : (checkDigest P cfg ridx rule st req).2 = .go u d n) :
+    ∃ vb, req.auth = some vb ∧ DigestValid P cfg rule st.epoch req vb u ∧ d = true := by
+  unfold checkDigest at h
+  split at h
+  · cases h
+  · rename_i dp ai nn hpre
+    obtain ⟨vb, hvb, hpfx, hdp, hpo, hnf⟩ := digestPre_ok hpre
+    split at h
+    · cases h
+    · rename_i ai' hget
+      simp only at h
+      obtain ⟨hresp, hauth, rfl, rfl, rfl⟩ := digestPost_go h
+      rw [digestGet_transparent hc hr hs hpo.airealm] at hget
+      obtain ⟨hl, hai'⟩ := backendDigest_some hget
+      simp only at hl
+      refine ⟨vb, hvb, ⟨hpfx, dp, dp.nonce.getD [], ai.dalgo, ai.dlen, ai.username, ai'.digest, hdp, hpo.realm,
+              hpo.uri, ?_, hnf, hpo.algo, hpo.allowed, hpo.name, ?_, ?_, hauth⟩, rfl⟩
+      · cases hn : dp.nonce with
+        | none => have := hpo.nonce; rw [hn] at this; cases this
+        | some x => rfl
+      · rw [← hpo.airealm, ← hpo.userhash]; exact hl
+      · have : ai'.dalgo = ai.dalgo := by rw [hai']
+        rw [← this]; exact hresp
+
+/-! ### Basic -/
+
+theorem backendBasic_valid {P : Prims} {cfg : Cfg} {rule : Rule} {u pw : Bytes}
+    (h : backendBasic P cfg rule u pw = true) :
+    matchRules rule.req u = true ∧
+    match cfg.backend with
+    | .plain => htpasswdGet cfg.file u = some (cstr pw)
+    | .htdigest => ∃ name, htdigestScan rule.realm false (digestLen (rule.algorithm &&& 0xfffffffe))
+                     (fileLines cfg.file) u = some (name, ha1 P u rule.realm (cstr pw))
+    | .htpasswd => ∃ stored, htpasswdGet cfg.file u = some stored ∧ htpasswdVerify P stored (cstr pw) = true
+    | .none => False := by
+  unfold backendBasic at h
+  cases hb : cfg.backend with
+  | none => rw [hb] at h; cases h
+  | plain =>
+    rw [hb] at h; simp only at h ⊢
+    split at h
+    · cases h
+    · rename_i stored hg
+      simp only [Bool.and_eq_true, decide_eq_true_eq] at h
+      exact ⟨h.2, by rw [hg, h.1]⟩
+  | htdigest =>
+    rw [hb] at h; simp only at h ⊢
+    split at h
+    · cases h
+    · rename_i name d hg
+      simp only [Bool.and_eq_true, decide_eq_true_eq] at h
+      exact ⟨h.2, name, by rw [hg, h.1]⟩
+  | htpasswd =>
+    rw [hb] at h; simp only at h ⊢
+    split at h
+    · cases h
+    · rename_i stored hg
+      simp only [Bool.and_eq_true] at h
+      exact ⟨h.2, stored, hg, h.1⟩
+
+theorem checkBasic_go {P : Prims} {cfg : Cfg} {ridx : Nat} {rule : Rule} {st : St} {req : Req}
+    {u : Bytes} {d n : Bool}
+    (hc : CacheOk P cfg st.cache) (hr : cfg.rules[ridx]? = some rule) (hs : rule.scheme = .basic)
+    (h : (checkBasic P cfg ridx rule st req).2 = .go u d n) :
+    ∃ vb, req.auth = some vb ∧ BasicValid P cfg rule vb u ∧ d = false := by
+  unfold checkBasic at h
+  split at h
+  · cases h
+  · split at h
+    · cases h
+    · rename_i vb hvb
+      split at h
+      · cases h
+      · rename_i user pw hcreds
+        split at h
+        · rename_i hok
+          simp only [Outcome.go.injEq] at h
+          obtain ⟨rfl, rfl, rfl⟩ := h
+          have hb := basicAuth_sound hc hr hs hok
+          obtain ⟨hm, hrec⟩ := backendBasic_valid hb
+          exact ⟨vb, hvb, ⟨pw, hcreds, hm, hrec⟩, rfl⟩
+        · cases h
+
+/-! ### the handler -/
+
+theorem checkBasic_cacheOk {P : Prims} {cfg : Cfg} {ridx : Nat} {rule : Rule} {st : St} {req : Req}
+    (hc : CacheOk P cfg st.cache) (hr : cfg.rules[ridx]? = some rule) (hs : rule.scheme = .basic) :
+    CacheOk P cfg (checkBasic P cfg ridx rule st req).1.cache := by
+  unfold checkBasic
+  split
+  · exact hc
+  · split
+    · exact hc
+    · split
+      · exact hc
+      · split <;> exact basicAuth_cacheOk hc hr hs
+
+theorem checkDigest_cacheOk {P : Prims} {cfg : Cfg} {ridx : Nat} {rule : Rule} {st : St} {req : Req}
+    (hc : CacheOk P cfg st.cache) (hr : cfg.rules[ridx]? = some rule) (hs : rule.scheme = .digest) :
+    CacheOk P cfg (checkDigest P cfg ridx rule st req).1.cache := by
+  unfold checkDigest
+  split
+  · exact hc
+  · rename_i dp ai nn hpre
+    obtain ⟨vb, _, _, _, hpo, _⟩ := digestPre_ok hpre
+    split <;> exact digestGet_cacheOk hc hr hs hpo.airealm
+
+theorem handle_cacheOk {P : Prims} {cfg : Cfg} {st : St} {req : Req}
+    (hc : CacheOk P cfg st.cache) : CacheOk P cfg (handle P cfg st req).1.cache := by
+  unfold handle
+  split
+  · exact hc
+  · rename_i ridx rule hf
+    have hr := findRule_get0 hf
+    split
+    · rename_i hs; exact checkBasic_cacheOk hc hr hs
+    · rename_i hs; exact checkDigest_cacheOk hc hr hs
+
+theorem cleanup_cacheOk {P : Prims} {cfg : Cfg} {c : Cache} {ma cur : Int}
+    (hc : CacheOk P cfg c) : CacheOk P cfg (c.cleanup ma cur) :=
+  fun p hp => hc p (mem_cleanup hp).1
+
+theorem tick_cacheOk {P : Prims} {cfg : Cfg} {st : St}
+    (hc : CacheOk P cfg st.cache) : CacheOk P cfg (tick cfg st).cache := by
+  unfold tick
+  simp only
+  split
+  · split
+    · exact cleanup_cacheOk hc
+    · exact hc
+  · exact hc
+
+theorem advance_cacheOk {P : Prims} {cfg : Cfg} (n : Nat) {st : St}
+    (hc : CacheOk P cfg st.cache) : CacheOk P cfg (advance cfg n st).cache := by
+  induction n generalizing st with
+  | zero => exact hc
+  | succ n ih => exact ih (tick_cacheOk hc)
+
+theorem step_cacheOk {P : Prims} {cfg : Cfg} {st : St} (op : Op)
+    (hc : CacheOk P cfg st.cache) : CacheOk P cfg (step P cfg st op).1.cache := by
+  cases op with
+  | request r => exact handle_cacheOk hc
+  | adv dt => exact advance_cacheOk dt hc
+  | epochShift d => exact hc
+
+theorem run_cacheOk {P : Prims} {cfg : Cfg} (ops : List Op) {st : St}
+    (hc : CacheOk P cfg st.cache) : CacheOk P cfg (run P cfg st ops).cache := by
+  induction ops generalizing st with
+  | nil => exact hc
+  | cons op ops ih => exact ih (step_cacheOk op hc)
+
+theorem cacheOk_nil {P : Prims} {cfg : Cfg} : CacheOk P cfg [] := fun _ h => by cases h
+
+/-! ### the cache never changes a refusal into an acceptance -/
+
+theorem basicAuth_nil {P : Prims} {cfg : Cfg} {ridx : Nat} {rule : Rule} {st : St} {user pw : Bytes} :
+    (basicAuth P cfg ridx rule { st with cache := [] } user pw).2 = backendBasic P cfg rule user pw := by
+  unfold basicAuth
+  split
+  · rfl
+  · simp only [basicHit, List.lookup]
+    split
+    · rename_i hb; simp [hb]
+    · rename_i hb; simp at hb; simp [hb]
+
+theorem checkBasic_go_nocache {P : Prims} {cfg : Cfg} {ridx : Nat} {rule : Rule} {st : St} {req : Req}
+    {u : Bytes} {d n : Bool}
+    (hc : CacheOk P cfg st.cache) (hr : cfg.rules[ridx]? = some rule) (hs : rule.scheme = .basic)
+    (h : (checkBasic P cfg ridx rule st req).2 = .go u d n) :
+    (checkBasic P cfg ridx rule { st with cache := [] } req).2 = .go u d n := by
+  unfold checkBasic at h ⊢
+  split at h
+  · cases h
+  · rename_i hbk
+    rw [if_neg hbk]
+    split at h
+    · cases h
+    · rename_i vb hvb
+      split at h
+      · cases h
+      · rename_i user pw hcreds
+        split at h
+        · rename_i hok
+          have hb := basicAuth_sound hc hr hs hok
+          simp only [basicAuth_nil, hb, ↓reduceIte]
+          exact h
+        · cases h
+
+/-- the answer of the Digest check as a function of the credential lookup -/
+def checkDigestOut (P : Prims) (cfg : Cfg) (rule : Rule) (epoch : Int) (req : Req) (get : AI → Option AI) : Outcome :=
+  match digestPre P cfg rule epoch req with
+  | .error o => .refuse o
+  | .ok (dp, ai, nn) =>
+    match get ai with
+    | none => .refuse (.s401d 0 false)
+    | some ai' => digestPost P rule req dp ai' nn
+
+theorem checkDigest_snd {P : Prims} {cfg : Cfg} {ridx : Nat} {rule : Rule} {st : St} {req : Req} :
+    (checkDigest P cfg ridx rule st req).2 =
+      checkDigestOut P cfg rule st.epoch req (fun ai => (digestGet P cfg ridx st ai).2) := by
+  unfold checkDigest checkDigestOut
+  cases hp : digestPre P cfg rule st.epoch req with
+  | error o => rfl
+  | ok x =>
+    obtain ⟨dp, ai, nn⟩ := x
+    simp only
+    cases hg : (digestGet P cfg ridx st ai).2 <;> rfl
+
+theorem checkDigest_nocache {P : Prims} {cfg : Cfg} {ridx : Nat} {rule : Rule} {st : St} {req : Req}
+    (hc : CacheOk P cfg st.cache) (hr : cfg.rules[ridx]? = some rule) (hs : rule.scheme = .digest) :
+    (checkDigest P cfg ridx rule { st with cache := [] } req).2 = (checkDigest P cfg ridx rule st req).2 := by
+  rw [checkDigest_snd, checkDigest_snd]
+  unfold checkDigestOut
+  cases hp : digestPre P cfg rule st.epoch req with
+  | error o => rfl
+  | ok x =>
+    obtain ⟨dp, ai, nn⟩ := x
+    obtain ⟨vb, _, _, _, hpo, _⟩ := digestPre_ok hp
+    dsimp only
+    rw [digestGet_transparent hc hr hs hpo.airealm,
+        digestGet_transparent (st := { st with cache := [] }) cacheOk_nil hr hs hpo.airealm]
+
+theorem handle_go_nocache {P : Prims} {cfg : Cfg} {st : St} {req : Req} {u : Bytes} {d n : Bool}
+    (hc : CacheOk P cfg st.cache) (h : (handle P cfg st req).2 = .go u d n) :
+    (handle P cfg { st with cache := [] } req).2 = .go u d n := by
+  unfold handle at h ⊢
+  cases hf : findRule cfg.rules req.path 0 with
+  | none => rw [hf] at h; cases h
+  | some x =>
+    obtain ⟨ridx, rule⟩ := x
+    rw [hf] at h
+    have hr := findRule_get0 hf
+    dsimp only at h ⊢
+    cases hs : rule.scheme with
+    | basic => rw [hs] at h; exact checkBasic_go_nocache hc hr hs h
+    | digest => rw [hs] at h; dsimp only at h ⊢; rw [checkDigest_nocache hc hr hs]; exact h
+
+/-! ### cache entries age out -/
+
+/-- every entry was created in the past and is at most max-age old, plus the time since the
+    last run of the cleanup (which happens when the monotonic second is a multiple of 8) -/
+def AgeOk (ma : Int) (st : St) : Prop :=
+  ∀ p ∈ st.cache, p.2.ctime ≤ st.mono ∧ st.mono - p.2.ctime ≤ max ma 0 + st.mono % 8
+
+theorem basicAuth_mem {P : Prims} {cfg : Cfg} {ridx : Nat} {rule : Rule} {st : St} {user pw : Bytes}
+    {p : Int × Entry} (h : p ∈ (basicAuth P cfg ridx rule st user pw).1.cache) :
+    p ∈ st.cache ∨ p.2.ctime = st.mono := by
+  unfold basicAuth at h
+  split at h
+  · exact Or.inl h
+  · split at h
+    · exact Or.inl h
+    · split at h
+      · rcases mem_insert h with rfl | h
+        · exact Or.inr rfl
+        · exact Or.inl h
+      · exact Or.inl h
+
+theorem basicAuth_clock {P : Prims} {cfg : Cfg} {ridx : Nat} {rule : Rule} {st : St} {user pw : Bytes} :
+    (basicAuth P cfg ridx rule st user pw).1.mono = st.mono
+    ∧ (basicAuth P cfg ridx rule st user pw).1.epoch = st.epoch := by
+  unfold basicAuth
+  split
+  · exact ⟨rfl, rfl⟩
+  · split
+    · exact ⟨rfl, rfl⟩
+    · split <;> exact ⟨rfl, rfl⟩
+
+theorem digestGet_mem {P : Prims} {cfg : Cfg} {ridx : Nat} {st : St} {ai : AI}
+    {p : Int × Entry} (h : p ∈ (digestGet P cfg ridx st ai).1.cache) :
+    p ∈ st.cache ∨ p.2.ctime = st.mono := by
+  unfold digestGet at h
+  split at h
+  · exact Or.inl h
+  · split at h
+    · exact Or.inl h
+    · split at h
+      · exact Or.inl h
+      · rcases mem_insert h with rfl | h
+        · exact Or.inr rfl
+        · exact Or.inl h
+
+theorem digestGet_clock {P : Prims} {cfg : Cfg} {ridx : Nat} {st : St} {ai : AI} :
+    (digestGet P cfg ridx st ai).1.mono = st.mono ∧ (digestGet P cfg ridx st ai).1.epoch = st.epoch := by
+  unfold digestGet
+  split
+  · exact ⟨rfl, rfl⟩
+  · split
+    · exact ⟨rfl, rfl⟩
+    · split <;> exact ⟨rfl, rfl⟩
+
+theorem handle_mem {P : Prims} {cfg : Cfg} {st : St} {req : Req} {p : Int × Entry}
+    (h : p ∈ (handle P cfg st req).1.cache) : p ∈ st.cache ∨ p.2.ctime = st.mono := by
+  unfold handle at h
+  split at h
+  · exact Or.inl h
+  · split at h
+    · unfold checkBasic at h
+      split at h
+      · exact Or.inl h
+      · split at h
+        · exact Or.inl h
+        · split at h
+          · exact Or.inl h
+          · split at h <;> exact basicAuth_mem h
+    · unfold checkDigest at h
+      split at h
+      · exact Or.inl h
+      · split at h <;> exact digestGet_mem h
+
+theorem handle_clock {P : Prims} {cfg : Cfg} {st : St} {req : Req} :
+    (handle P cfg st req).1.mono = st.mono ∧ (handle P cfg st req).1.epoch = st.epoch := by
+  unfold handle
+  split
+  · exact ⟨rfl, rfl⟩
+  · split
+    · unfold checkBasic
+      split
+      · exact ⟨rfl, rfl⟩
+      · split
+        · exact ⟨rfl, rfl⟩
+        · split
+          · exact ⟨rfl, rfl⟩
+          · split <;> exact basicAuth_clock
+    · unfold checkDigest
+      split
+      · exact ⟨rfl, rfl⟩
+      · split <;> exact digestGet_clock
+
+theorem handle_ageOk {P : Prims} {cfg : Cfg} {st : St} {req : Req} {ma : Int}
+    (h : AgeOk ma st) : AgeOk ma (handle P cfg st req).1 := by
+  intro p hp
+  rw [handle_clock.1]
+  rcases handle_mem hp with hp | hp
+  · exact h p hp
+  · rw [hp]; constructor <;> omega
+
+theorem tick_ageOk {cfg : Cfg} {st : St} {ma : Int} (hma : cfg.cacheMaxAge = some ma)
+    (h : AgeOk ma st) : AgeOk ma (tick cfg st) := by
+  intro p hp
+  unfold tick at hp ⊢
+  simp only [hma] at hp ⊢
+  split at hp
+  · rename_i h8
+    obtain ⟨hp, hle⟩ := mem_cleanup hp
+    obtain ⟨h1, h2⟩ := h p hp
+    constructor <;> omega
+  · rename_i h8
+    obtain ⟨h1, h2⟩ := h p hp
+    constructor <;> omega
+
+theorem advance_ageOk {cfg : Cfg} {ma : Int} (hma : cfg.cacheMaxAge = some ma) (n : Nat) {st : St}
+    (h : AgeOk ma st) : AgeOk ma (advance cfg n st) := by
+  induction n generalizing st with
+  | zero => exact h
+  | succ n ih => exact ih (tick_ageOk hma h)
+
+theorem step_ageOk {P : Prims} {cfg : Cfg} {ma : Int} (hma : cfg.cacheMaxAge = some ma) {st : St} (op : Op)
+    (h : AgeOk ma st) : AgeOk ma (step P cfg st op).1 := by
+  cases op with
+  | request r => exact handle_ageOk h
+  | adv dt => exact advance_ageOk hma dt h
+  | epochShift d => exact h
+
+theorem run_ageOk {P : Prims} {cfg : Cfg} {ma : Int} (hma : cfg.cacheMaxAge = some ma) (ops : List Op) {st : St}
+    (h : AgeOk ma st) : AgeOk ma (run P cfg st ops) := by
+  induction ops generalizing st with
+  | nil => exact h
+  | cons op ops ih => exact ih (step_ageOk hma op h)
+
+/-! ### refusals: which status for which reason -/
+
+theorem basicCreds_error {vb : Bytes} {r : Refusal} (h : basicCreds vb = .error r) :
+    r = .s401b true ∨ r = .s400 := by
+  simp only [basicCreds] at h
+  repeat' split at h
+  all_goals first
+    | (simp only [Except.error.injEq] at h; subst h; simp)
+    | cases h
+
+theorem validateParams_error {rule : Rule} {req : Req} {dp : Params} {r : Refusal}
+    (h : validateParams rule req dp = .error r) : r = .s401d 0 true ∨ r = .s400 := by
+  unfold validateParams at h
+  repeat' split at h
+  all_goals first
+    | (simp only [Except.error.injEq] at h; subst h; simp)
+    | cases h
+
+theorem validateNonce_error {P : Prims} {rule : Rule} {epoch : Int} {nonce : Bytes} {dalgo : Nat} {r : Refusal}
+    (h : validateNonce P rule epoch nonce dalgo = .error r) : (∃ s, r = .s401d s true) ∨ r = .s400 := by
+  simp only [validateNonce] at h
+  repeat' split at h
+  all_goals first
+    | (simp only [Except.error.injEq] at h; subst h; simp)
+    | cases h
+
+theorem digestPre_error {P : Prims} {cfg : Cfg} {rule : Rule} {epoch : Int} {req : Req} {r : Refusal}
+    (h : digestPre P cfg rule epoch req = .error r) :
+    (r = .s500 ∧ cfg.backend ≠ .plain ∧ cfg.backend ≠ .htdigest) ∨ (∃ s, r = .s401d s true) ∨ r = .s400 := by
+  simp only [digestPre] at h
+  split at h
+  · rename_i hb
+    simp only [Except.error.injEq] at h; subst h; exact Or.inl ⟨rfl, hb⟩
+  · split at h
+    · simp only [Except.error.injEq] at h; subst h; exact Or.inr (Or.inl ⟨0, rfl⟩)
+    · split at h
+      · simp only [Except.error.injEq] at h; subst h; exact Or.inr (Or.inl ⟨0, rfl⟩)
+      · split at h
+        · rename_i o hv
+          simp only [Except.error.injEq] at h; subst h
+          rcases validateParams_error hv with h | h
+          · exact Or.inr (Or.inl ⟨0, h⟩)
+          · exact Or.inr (Or.inr h)
+        · split at h
+          · rename_i o hv
+            simp only [Except.error.injEq] at h; subst h
+            exact Or.inr (validateNonce_error hv)
+          · cases h
+
+/-- the only way to a 500: no backend, or a backend that cannot do the rule's scheme -/
+theorem handle_500 {P : Prims} {cfg : Cfg} {st : St} {req : Req} {ridx : Nat} {rule : Rule}
+    (hf : findRule cfg.rules req.path 0 = some (ridx, rule))
+    (h : (handle P cfg st req).2 = .refuse .s500) :
+    cfg.backend = .none ∨ (rule.scheme = .digest ∧ cfg.backend = .htpasswd) := by
+  unfold handle at h
+  rw [hf] at h
+  dsimp only at h
+  cases hs : rule.scheme with
+  | basic =>
+    rw [hs] at h
+    dsimp only at h
+    unfold checkBasic at h
+    split at h
+    · rename_i hb; exact Or.inl hb
+    · split at h
+      · cases h
+      · split at h
+        · rename_i o hc
+          simp only [Outcome.refuse.injEq] at h
+          subst h
+          rcases basicCreds_error hc with h | h <;> cases h
+        · split at h <;> cases h
+  | digest =>
+    rw [hs] at h
+    dsimp only at h
+    rw [checkDigest_snd] at h
+    unfold checkDigestOut at h
+    split at h
+    · rename_i o hp
+      simp only [Outcome.refuse.injEq] at h
+      subst h
+      rcases digestPre_error hp with ⟨_, h1, h2⟩ | ⟨s, h⟩ | h
+      · cases hb : cfg.backend with
+        | none => exact Or.inl rfl
+        | htpasswd => exact Or.inr ⟨rfl, rfl⟩
+        | plain => exact absurd hb h1
+        | htdigest => exact absurd hb h2
+      · cases h
+      · cases h
+    · split at h
+      · cases h
+      · unfold digestPost at h
+        split at h
+        · cases h
+        · split at h <;> cases h
+
+/-- a path covered by a rule is never passed through unauthenticated -/
+theorem handle_ne_pass {P : Prims} {cfg : Cfg} {st : St} {req : Req} {ridx : Nat} {rule : Rule}
+    (hf : findRule cfg.rules req.path 0 = some (ridx, rule)) :
+    (handle P cfg st req).2 ≠ .pass := by
+  intro h
+  unfold handle at h
+  rw [hf] at h
+  dsimp only at h
+  cases hs : rule.scheme with
+  | basic =>
+    rw [hs] at h
+    dsimp only at h
+    unfold checkBasic at h
+    repeat' split at h
+    all_goals cases h
+  | digest =>
+    rw [hs] at h
+    dsimp only at h
+    rw [checkDigest_snd] at h
+    unfold checkDigestOut at h
+    split at h
+    · cases h
+    · split at h
+      · cases h
+      · unfold digestPost at h
+        repeat' split at h
+        all_goals cases h
+
+/-- the acceptance theorem for the whole handler -/
+theorem handle_go {P : Prims} {cfg : Cfg} {st : St} {req : Req} {ridx : Nat} {rule : Rule}
+    {u : Bytes} {d n : Bool}
+    (hc : CacheOk P cfg st.cache)
+    (hf : findRule cfg.rules req.path 0 = some (ridx, rule))
+    (h : (handle P cfg st req).2 = .go u d n) :
+    ∃ hdr, req.auth = some hdr ∧
+      ((rule.scheme = .basic ∧ d = false ∧ BasicValid P cfg rule hdr u)
+       ∨ (rule.scheme = .digest ∧ d = true ∧ DigestValid P cfg rule st.epoch req hdr u)) := by
+  have hr := findRule_get0 hf
+  unfold handle at h
+  rw [hf] at h
+  dsimp only at h
+  cases hs : rule.scheme with
+  | basic =>
+    rw [hs] at h
+    obtain ⟨vb, hvb, hv, hd⟩ := checkBasic_go hc hr hs h
+    exact ⟨vb, hvb, Or.inl ⟨rfl, hd, hv⟩⟩
+  | digest =>
+    rw [hs] at h
+    obtain ⟨vb, hvb, hv, hd⟩ := checkDigest_go hc hr hs h
+    exact ⟨vb, hvb, Or.inr ⟨rfl, hd, hv⟩⟩
+
+/-! ### forgetting -/
+
+theorem tick_mem {cfg : Cfg} {st : St} {p : Int × Entry} (h : p ∈ (tick cfg st).cache) : p ∈ st.cache := by
+  unfold tick at h
+  simp only at h
+  split at h
+  · split at h
+    · exact (mem_cleanup h).1
+    · exact h
+  · exact h
+
+theorem tick_mono {cfg : Cfg} {st : St} : (tick cfg st).mono = st.mono + 1 := rfl
+
+theorem advance_mem {cfg : Cfg} (n : Nat) {st : St} {p : Int × Entry}
+    (h : p ∈ (advance cfg n st).cache) : p ∈ st.cache := by
+  induction n generalizing st with
+  | zero => exact h
+  | succ n ih => exact tick_mem (ih h)
+
+theorem advance_mono {cfg : Cfg} (n : Nat) {st : St} : (advance cfg n st).mono = st.mono + n := by
+  induction n generalizing st with
+  | zero => simp [advance]
+  | succ n ih => simp only [advance]; rw [ih, tick_mono]; omega
+
+/-! ### a starting state, and fixtures for the non-vacuity examples -/
+
+/-- server start: empty cache, any clock values -/
+def init (mono epoch : Int) : St := { cache := [], mono := mono, epoch := epoch }
+
+theorem init_cacheOk {P : Prims} {cfg : Cfg} {m e : Int} : CacheOk P cfg (init m e).cache := cacheOk_nil
+theorem init_ageOk {ma m e : Int} : AgeOk ma (init m e) := fun _ h => by cases h
+
+namespace Ex
+/-- toy "digest" for the examples (the theorems hold for every H): a polynomial checksum, 16 bytes -/
+def H (b : Bytes) : Bytes :=
+  leBytes 16 (b.foldl (fun s x => (s * 257 + x.toNat + 1) % (2 ^ 127 - 1)) 7)
+/-- every cache key collides -/
+def P : Prims := { H := H, hash := fun _ _ => 0, crypt := fun _ _ => false }
+def rules : List Rule :=
+  [ { pfx := ofString "/priv", scheme := .basic, realm := ofString "R1", algorithm := 3, secret := none,
+      userhash := false, req := { validUser := true } },
+    { pfx := ofString "/dig", scheme := .digest, realm := ofString "R2", algorithm := 3, secret := none,
+      userhash := false, req := { users := [ofString "alice"] } } ]
+def cfg : Cfg := { rules := rules, backend := .plain, file := ofString "alice:wonder\nbob:builder\n",
+                   cacheMaxAge := some 600 }
+def basicReq (cred : String) : Req :=
+  { method := ofString "GET", target := ofString "/priv/x", path := ofString "/priv/x",
+    auth := some (ofString ("Basic " ++ cred)), h2ext := false }
+def digestHdr (user uri response : String) : Bytes :=
+  ofString ("Digest username=\"" ++ user ++ "\", realm=\"R2\", nonce=\"6553f100:00\", uri=\"" ++ uri ++
+            "\", qop=auth, nc=00000001, cnonce=\"abc\", response=\"" ++ response ++ "\"")
+def digestReq (method user uri response : String) : Req :=
+  { method := ofString method, target := ofString "/dig/x", path := ofString "/dig/x",
+    auth := some (digestHdr user uri response), h2ext := false }
+def st0 : St := init 1000 1700000000
+end Ex
+
 end LtVerif.Auth
